@@ -161,7 +161,8 @@ def file_kind_findings(ctx, kr, rule_id, select, text):
         if bad:
             descr = sorted(kr.offending[q])
             alld = set().union(*kr.offending[q].values()) if kr.offending[q] else set(kr.rules_seen[q])
-            key = f"{q}|{r.ret}|" + ";".join(descr)
+            # keyed by rule, declared type and the kinds that can come out - not by the spelling of the return statements
+            key = f"{q}|{r.ret}|" + "/".join(sorted(union))
             ctx.violation(
                 rule_id, key, r.where,
                 f"declared -> {r.ret}, but return kinds are {sorted(union)}: {descr[:3]} during {kr.span(alld)}",
